@@ -20,8 +20,9 @@ DEFAULT_KEYS = ['sps', 'R', 'fs', 'dt', 'wavelength', 'f0', 'N', 't', 'dw', 'w']
 # ------------------------------------------------------------------ alphabet
 def alphabet(tier):
     sps = [None, 4, 8]
-    R = [None, 1e9, 2e9]
-    fs = [None, 8e9, 16e9]
+    # rates built from periods: mathematically commensurate (fs = 5 R) but the float quotient fs/R is 4.999999999999999
+    R = [None, 1e9, 2e9, 1 / 100e-12]
+    fs = [None, 8e9, 16e9, 1 / (100e-12 / 5)]
     wl = [None, 1310e-9]
     N = [None, 1, 3]
     custom = [None, {'alpha': 0.5}]
@@ -33,6 +34,8 @@ def alphabet(tier):
     for s, r, f, w, n, cu in itertools.product(sps, R, fs, wl, N, custom):
         if s and r and f and abs(f - r * s) > 1e-6 * f:
             continue  # not commensurate: the statement only speaks of commensurate rates
+        if r and f and not s and (abs(f / r - round(f / r)) > 1e-9 or round(f / r) < 1):
+            continue
         kw = {}
         if s is not None: kw['sps'] = s
         if r is not None: kw['R'] = r
@@ -53,6 +56,16 @@ def apply(gv, act):
         with warnings.catch_warnings():
             warnings.simplefilter('ignore')
             gv(**kw)
+
+
+def enabled(gv, act):
+    """the statement speaks of commensurate rates: an action that gives fs without R (and without sps) is only taken when fs
+    is an integer multiple of the slot rate in force"""
+    kind, kw = act
+    if kind == 'call' and 'fs' in kw and 'R' not in kw and 'sps' not in kw:
+        q = kw['fs'] / gv.R
+        return round(q) >= 1 and abs(q - round(q)) <= 1e-9
+    return True
 
 
 def replay(hist):
@@ -178,6 +191,9 @@ def expand(case):
     init = initial_canon()
     for ai, act in enumerate(acts):
         gv = replay(hist)
+        if not enabled(gv, act):
+            succ.append(None)
+            continue
         m = Model()
         for a in hist:
             m.step(a)
@@ -235,6 +251,8 @@ def run_part_a(ctx):
             if succ is None:
                 continue
             for act, ck in zip(acts, succ):
+                if ck is None:
+                    continue        # action not enabled in this state (non-commensurate)
                 transitions += 1
                 if ck not in seen:
                     seen[ck] = h + [act]
